@@ -6,7 +6,7 @@
 (* Chiritori.tla it belongs to, with the logged value bound to the primed  *)
 (* variable.  The property predicates of Props.tla are the invariants.     *)
 (***************************************************************************)
-EXTENDS Props, Json, IOUtils, TLC
+EXTENDS KnownFindings, Json, IOUtils
 
 Beh == ndJsonDeserialize(IOEnv.TRACE)
 
@@ -77,6 +77,7 @@ Inv_C15 == C15
 Inv_C16 == C16
 Inv_C17 == C17
 Inv_C18 == C18
-Inv_C19 == C19
+Inv_C19 == /\ C19_Idem
+           /\ C19_Comp \/ Listed("C19", "C19-blank-wrappers", KF_C19_BlankWrappers(Commits[1].src, cfg), BehId)
 Inv_C20 == C20
 =============================================================================
